@@ -96,7 +96,8 @@ func main() {
 		ID:    "C10",
 		Level: "fault_enumeration",
 		Rule: "terminating events {client-close, server-close, write-fail-client, write-fail-server, proto-error-client, proto-error-server, closing} x " +
-			"session states {idle, mid-stream, blocked (DATA queued behind a zero window), chan-full (>15 frames behind a gated writer)} x " +
+			"session states {idle, mid-stream, blocked (DATA queued in the relay behind a zero stream window or an exhausted connection window), " +
+			"chan-full (>15 frames behind a writer parked at the hook point, reader optionally parked on the 17th push)} x " +
 			"direction parked at the reader hook point {c2s, s2c} = 56 cells, plus 2 cells ending the session before the preface is forwarded; " +
 			"PRNG traffic, marker frame, malformed-frame kind, queue lengths and gate release order per (VERIF_SEED, idx). A class is a distinct " +
 			"event/state/delay cell whose state and delay were observed to be in place before the event and on which the oracle ran",
